@@ -34,6 +34,7 @@ type Val struct {
 	Clo   *Closure
 	Tup   []Val
 	Elems []Val // static contents of a slice built from a local array
+	Static *Val  // for an element address: the statically known content
 	Off   string // element offset of a sub-slice s[lo:] (translator-level; such values must not escape)
 	Fresh bool  // reference allocated during this execution
 }
@@ -757,13 +758,24 @@ func (x *Engine) storeAddr(st *State, a *Addr, v string) {
 
 func (x *Engine) embRef(owner types.Type, f *types.Var, ref string) string {
 	fn := "emb_" + mangle(typeName(owner)) + "_" + mangle(f.Name())
-	x.declRaw("fun:"+fn, fmt.Sprintf("(declare-fun %s (Int) Int)\n(declare-fun %s_inv (Int) Int)\n(assert (forall ((r Int)) (! (and (= (%s_inv (%s r)) r) (< (%s r) 0)) :pattern ((%s r)))))", fn, fn, fn, fn, fn, fn))
-	return fmt.Sprintf("(%s %s)", fn, ref)
+	x.declRaw("fun:"+fn, fmt.Sprintf("(declare-fun %s (Int) Int)\n(declare-fun %s_inv (Int) Int)", fn, fn))
+	t := fmt.Sprintf("(%s %s)", fn, ref)
+	// injectivity and negativity, instantiated per use (quantifier-free)
+	if !strings.Contains(ref, "_q") && !x.declared["inst:"+t] && !strings.Contains(ref, "dummy") {
+		x.declared["inst:"+t] = true
+		x.emit(fmt.Sprintf("(assert (and (= (%s_inv %s) %s) (< %s 0)))", fn, t, ref, t))
+	}
+	return t
 }
 
 func (x *Engine) elemRef(base, idx string) string {
-	x.declRaw("fun:eref", "(declare-fun eref (Int Int) Int)\n(declare-fun eref_b (Int) Int)\n(declare-fun eref_i (Int) Int)\n(assert (forall ((b Int) (i Int)) (! (and (= (eref_b (eref b i)) b) (= (eref_i (eref b i)) i) (< (eref b i) 0)) :pattern ((eref b i)))))")
-	return fmt.Sprintf("(eref %s %s)", base, idx)
+	x.declRaw("fun:eref", "(declare-fun eref (Int Int) Int)\n(declare-fun eref_b (Int) Int)\n(declare-fun eref_i (Int) Int)")
+	t := fmt.Sprintf("(eref %s %s)", base, idx)
+	if !strings.Contains(t, "_q") && !x.declared["inst:"+t] && !strings.Contains(t, "dummy") {
+		x.declared["inst:"+t] = true
+		x.emit(fmt.Sprintf("(assert (and (= (eref_b %s) %s) (= (eref_i %s) %s) (< %s 0)))", t, base, t, idx, t))
+	}
+	return t
 }
 
 // loadStruct reads a whole struct value from the object at ref.
@@ -837,7 +849,11 @@ func (x *Engine) alloc(st *State) string {
 func (x *Engine) constVal(c *ssa.Const) Val {
 	t := c.Type()
 	if c.Value == nil {
-		return Val{T: x.zero(t), Typ: t}
+		v := Val{T: x.zero(t), Typ: t}
+		if _, ok := t.Underlying().(*types.Slice); ok {
+			v.Elems = []Val{}
+		}
+		return v
 	}
 	switch c.Value.Kind() {
 	case constant.Bool:
